@@ -119,6 +119,14 @@ Theorem C01_bphp_domain_partial : forall m n, 1 <= m -> 1 <= n -> bphp_valid m n
 Proof. exact bphp_domain_partial. Qed.
 Print Assumptions C01_bphp_domain_partial.
 
+(* the documented behaviour on the documented domain (what a repaired cnfgen builds; the
+   correspondence accepts either variant on the inputs of D30) satisfies the full criterion *)
+Theorem C01_bphp_spec_sat_iff m n : 0 <= m -> 0 <= n ->
+  ((exists a, cnf_sat a (to_cnf (bphp_spec_ir m n)) = true) <-> m <= n) /\
+  ((exists a, opb_sat a (to_opb (bphp_spec_ir m n)) = true) <-> m <= n).
+Proof. exact (bphp_spec_sat_iff_final m n). Qed.
+Print Assumptions C01_bphp_spec_sat_iff.
+
 (* ===================== RelativizedPigeonholePrinciple ===================== *)
 Theorem C01_rphp_T1 a m r n : 0 <= m -> 0 <= r -> 0 <= n ->
   (cnf_sat a (to_cnf (rphp_ir m r n)) = true <->
